@@ -1249,9 +1249,11 @@ impl<const MIN_ALIGN: usize> Bump<MIN_ALIGN> {
                         // only allocation in this chunk.
                         //
                         // Because this is the only allocation in this chunk,
-                        // we can reset the chunk's bump finger to the start of
-                        // the chunk.
-                        current_ptr.set(current_footer_p.as_ref().data);
+                        // we can reset the chunk's bump finger to where it
+                        // starts out in a new chunk: we bump downwards, so that
+                        // is the end of the chunk's data (the footer), not
+                        // `data`, which would mark the chunk as full.
+                        current_ptr.set(current_footer_p.cast());
                     }
                 }
                 //SAFETY:
@@ -1357,9 +1359,11 @@ impl<const MIN_ALIGN: usize> Bump<MIN_ALIGN> {
                         // only allocation in this chunk.
                         //
                         // Because this is the only allocation in this chunk,
-                        // we can reset the chunk's bump finger to the start of
-                        // the chunk.
-                        current_ptr.set(current_footer_p.as_ref().data);
+                        // we can reset the chunk's bump finger to where it
+                        // starts out in a new chunk: we bump downwards, so that
+                        // is the end of the chunk's data (the footer), not
+                        // `data`, which would mark the chunk as full.
+                        current_ptr.set(current_footer_p.cast());
                     }
                 }
                 //SAFETY:
